@@ -40,10 +40,16 @@ def functional_variant(op):
     if not schema.name.endswith("_") or len(args) == 0 or args[0].alias_info is None or not args[0].alias_info.is_write:
         return None
     packet = getattr(torch.ops.aten, schema.name.split("::")[-1][:-1], None)
-    functional = getattr(packet, schema.overload_name or "default", None)
-    if functional is None or [a.name for a in functional._schema.arguments] != [a.name for a in args]:
+    if packet is None:
         return None
-    return functional
+    # The overload of the out-of-place variant does not always have the same name (transpose_ / transpose.int)
+    overloads = [schema.overload_name or "default"] + packet.overloads()
+    for functional in [getattr(packet, overload, None) for overload in overloads]:
+        if functional is not None and [(a.name, str(a.type)) for a in functional._schema.arguments] == [
+            (a.name, str(a.type)) for a in args
+        ]:
+            return functional
+    return None
 
 
 class QTensor(torch.Tensor):
